@@ -125,19 +125,26 @@ func simpleMatches(rules []string, requests []string, matchFn ...func(m matcher)
 		return true
 	}
 
+	if len(filtered) == 0 {
+		return false
+	}
+	// filterRules returns either only positive rules or only reversed rules.
+	// A reversed list matches exactly the requests its positive counterpart does not match.
+	reversed := filtered[0].reverse
 	for _, v := range filtered {
+		positive := matcher{value: v.value}
 		for _, request := range requests {
-			if v.match(request) {
-				return true
+			if positive.match(request) {
+				return !reversed
 			}
 		}
 		for _, match := range matchFn {
-			if match(v) {
-				return true
+			if match(positive) {
+				return !reversed
 			}
 		}
 	}
-	return false
+	return reversed
 }
 
 type matcher struct {
